@@ -1,4 +1,5 @@
-/* units: execution::detail::default_agent::{default_agent, suspend, resume, abort}  (execution_base/src/this_thread.cpp)   (M)
+/* units: execution::detail::default_agent::{default_agent, suspend, resume, abort} (M), {sleep_until} (M), {sleep_for, yield, yield_k,
+ * spin_k} (T + frame)   (execution_base/src/this_thread.cpp)
  * Every statement of the functions under contract is lifted; see agent_da.h for the protocol, ghost state and stubs. */
 #include "agent_da.h"
 
